@@ -36,7 +36,7 @@ pub fn classify(e: &TptpError, text: &str) -> String {
             if pred >= 2 {
                 "predicate-at-two-arities".to_string()
             } else if pred == 1 && sym == 1 {
-                "symbol-named-like-predicate".to_string()
+                if id.ends_with("__s") { "renamed-symbol-equals-predicate".to_string() } else { "symbol-named-like-predicate".to_string() }
             } else if sym == 1 && fc == 1 {
                 "symbol-named-like-mangled-placeholder".to_string()
             } else if fc == 2 {
